@@ -89,6 +89,31 @@ where
     Handle: Clone,
     Sink: TreeSink<Handle = Handle>,
 {
+    /// The "anything else" entry of the "in table text" insertion mode, up to the point
+    /// where the token is reprocessed in the original insertion mode.
+    pub(crate) fn flush_pending_table_text(&self) {
+        let pending = self.pending_table_text.take();
+        let contains_nonspace = pending.iter().any(|&(split, ref text)| match split {
+            SplitStatus::Whitespace => false,
+            SplitStatus::NotWhitespace => true,
+            SplitStatus::NotSplit => any_not_whitespace(text),
+        });
+
+        if contains_nonspace {
+            self.sink.parse_error(Borrowed("Non-space table text"));
+            for (split, text) in pending.into_iter() {
+                match self.foster_parent_in_body(Token::Characters(split, text)) {
+                    ProcessResult::Done => (),
+                    _ => panic!("not prepared to handle this!"),
+                }
+            }
+        } else {
+            for (_, text) in pending.into_iter() {
+                self.append_text(text);
+            }
+        }
+    }
+
     /// Process an HTML token.
     ///
     /// <https://html.spec.whatwg.org/multipage/parsing.html#parsing-main-inhtml>
@@ -1148,27 +1173,7 @@ where
                 },
 
                 token => {
-                    let pending = self.pending_table_text.take();
-                    let contains_nonspace = pending.iter().any(|&(split, ref text)| match split {
-                        SplitStatus::Whitespace => false,
-                        SplitStatus::NotWhitespace => true,
-                        SplitStatus::NotSplit => any_not_whitespace(text),
-                    });
-
-                    if contains_nonspace {
-                        self.sink.parse_error(Borrowed("Non-space table text"));
-                        for (split, text) in pending.into_iter() {
-                            match self.foster_parent_in_body(Token::Characters(split, text)) {
-                                ProcessResult::Done => (),
-                                _ => panic!("not prepared to handle this!"),
-                            }
-                        }
-                    } else {
-                        for (_, text) in pending.into_iter() {
-                            self.append_text(text);
-                        }
-                    }
-
+                    self.flush_pending_table_text();
                     ProcessResult::Reprocess(self.orig_mode.take().unwrap(), token)
                 },
             },
